@@ -68,6 +68,7 @@ type vfCfg struct {
 	DenyKeys      []string    `json:"deny_keys,omitempty"` // fixture key names whose fingerprints are deny-listed
 	PubKeys       []string    `json:"pub_keys,omitempty"`  // fixture key names pre-published in keymaster_public_keys_filename
 	Email         bool        `json:"email,omitempty"`
+	AwsRoles      bool        `json:"aws_roles,omitempty"` // cloud-role certificates for workloads of one allowed AWS account (simulated STS)
 	Federated     bool        `json:"federated,omitempty"` // oauth2 login through a (simulated) identity provider
 }
 
@@ -308,6 +309,9 @@ func (w *vfWorld) writeConfig() (string, error) {
 			urls = append(urls, fmt.Sprintf("ldaps://ldap%d.sim", i+1))
 		}
 		fmt.Fprintf(&b, "ldap:\n  bind_pattern: \"uid=%%s,ou=people,dc=sim\"\n  ldap_target_urls: %q\n  disable_password_cache: %v\n", strings.Join(urls, ","), c.NoPwCache)
+	}
+	if c.AwsRoles {
+		b.WriteString("aws_certs:\n  allowed_accounts: [\"123456789012\"]\n")
 	}
 	if c.Federated {
 		b.WriteString("oauth2:\n  enabled: true\n  client_id: \"km-client\"\n  client_secret: \"km-client-secret\"\n  token_url: \"https://idp.sim/token\"\n  auth_url: \"https://idp.sim/auth\"\n  userinfo_url: \"https://idp.sim/userinfo\"\n  scopes: \"openid email\"\n")
@@ -619,6 +623,7 @@ type vfReq struct {
 	Form   url.Values
 	Multi  map[string]string // multipart fields; key "@pubkeyfile" = file content
 	JSON   []byte
+	Raw    []byte // request body as is
 	Cookies map[string]string
 	PreCookies [][2]string // sent before Cookies in the Cookie header (duplicate names allowed)
 	Basic  *[2]string
@@ -684,6 +689,8 @@ func (w *vfWorld) buildHTTP(r *vfReq) (*http.Request, *vfResp) {
 		mw.Close()
 		body = buf
 		ctype = mw.FormDataContentType()
+	case r.Raw != nil:
+		body = bytes.NewReader(r.Raw)
 	case r.JSON != nil:
 		body = bytes.NewReader(r.JSON)
 		ctype = "application/json"
